@@ -19,7 +19,7 @@ PROPS = {
                         "a text that parses as a float is never the literal 'unavailable'"],
     },
     "C05": {
-        "prop_files": ["Katib/Props/C05.lean"],
+        "prop_files": ["Katib/Props/C05.lean", 'Katib/Props/C05Guards.lean'],
         "n": {"quick": 30000, "thorough": 600000},
         "rule": "seeded random (spec, stored status, trial list) triples: 0-40 trials (some under deletion with their finalizer) with realistic or arbitrary condition subsets "
                 "(True/False, duplicates), 0-2 metrics each with min/max/latest texts (numeric syntaxes, ties, negatives, 'unavailable', "
